@@ -63,7 +63,7 @@ func x2Configs(prop, tier string) []*X2Config {
 				if prop == "C06" && (pc.QL >= 0 || pc.Replace) {
 					continue
 				}
-				c := &X2Config{Name: prop + "/" + cfgName(pc), Cfgs: []PipeCfg{pc}, Depth: depth(6, 8), Sbad: true, FailOK: true, Cancel: true, Symmetry: true, AdvSteps: adv, Drain: true}
+				c := &X2Config{Name: prop + "/" + cfgName(pc), Cfgs: []PipeCfg{pc}, Depth: depth(7, 9), Sbad: true, FailOK: true, Cancel: true, Symmetry: true, AdvSteps: adv, Drain: true}
 				switch prop {
 				case "C01":
 					c.Props = props("C01", "C02")
@@ -88,12 +88,12 @@ func x2Configs(prop, tier string) []*X2Config {
 					c.Drain = false
 				case "C06":
 					c.Props = props("C06")
-					c.Depth = depth(7, 9)
+					c.Depth = depth(8, 10)
 				case "C15":
 					c.Props = props("C15")
 					c.Symmetry = false
 					c.Drain = false
-					c.Depth = depth(5, 7)
+					c.Depth = depth(7, 8)
 				}
 				if pc.Conc == 2 && !thorough && c.Depth > 5 {
 					c.Depth--
@@ -101,11 +101,18 @@ func x2Configs(prop, tier string) []*X2Config {
 				res = append(res, c)
 			}
 		}
+		if prop == "C01" || prop == "C03" || prop == "C05" || prop == "C06" {
+			// a reload that changes several aspects at once: append -> replace, concurrency 1 -> 2, delay added
+			a := PipeCfg{Conc: 1, QL: -1, Graph: graphOne}
+			b := PipeCfg{Conc: 2, QL: -1, Replace: true, Delay: dly, Graph: graphOne}
+			res = append(res, &X2Config{Name: prop + "/reload-append-to-replace+conc+delay", Cfgs: []PipeCfg{a, b}, Depth: depth(7, 8), Cancel: prop != "C05", Reload: true, Symmetry: true, AdvSteps: adv, Drain: prop != "C05",
+				Props: map[string]bool{"C01": prop == "C01", "C02": prop == "C01", "C03": prop == "C03", "C05": prop == "C05", "C06": prop == "C06"}})
+		}
 		if prop == "C03" {
 			// reload alphabets
 			base := PipeCfg{Conc: 1, QL: -1, Graph: graphOne}
 			mk := func(name string, a, b PipeCfg) {
-				res = append(res, &X2Config{Name: "C03/reload-" + name, Cfgs: []PipeCfg{a, b}, Depth: depth(6, 8), Sbad: false, FailOK: false, Cancel: true, Reload: true, Symmetry: true, AdvSteps: adv, Drain: true, Props: props("C03")})
+				res = append(res, &X2Config{Name: "C03/reload-" + name, Cfgs: []PipeCfg{a, b}, Depth: depth(7, 9), Sbad: false, FailOK: false, Cancel: true, Reload: true, Symmetry: true, AdvSteps: adv, Drain: true, Props: props("C03")})
 			}
 			d10, d20 := base, base
 			d10.Delay, d20.Delay = dly, 2*dly
@@ -125,15 +132,25 @@ func x2Configs(prop, tier string) []*X2Config {
 			for _, ql := range []int{1, 2, -1} {
 				for _, repl := range []bool{false, true} {
 					pc := PipeCfg{Conc: conc, QL: ql, Replace: repl, Delay: dly, Graph: graphOne}
-					res = append(res, &X2Config{Name: "C07/" + cfgName(pc), Cfgs: []PipeCfg{pc}, Depth: depth(6, 8), FailOK: false, Cancel: true, Symmetry: true,
+					res = append(res, &X2Config{Name: "C07/" + cfgName(pc), Cfgs: []PipeCfg{pc}, Depth: depth(7, 9), FailOK: false, Cancel: true, Symmetry: true,
 						AdvSteps: []time.Duration{dly / 2, dly - time.Millisecond, time.Millisecond, dly}, Drain: true, Props: props("C07")})
 				}
 			}
 		}
+		// reloads that remove / shorten / add the delay: the lower bound is the delay the job was accepted with
+		for _, v := range []struct {
+			n    string
+			a, b time.Duration
+		}{{"delay-10-0", dly, 0}, {"delay-20-10", 2 * dly, dly}, {"delay-0-10", 0, dly}} {
+			pa := PipeCfg{Conc: 1, QL: -1, Graph: graphOne, Delay: v.a}
+			pb := PipeCfg{Conc: 1, QL: -1, Graph: graphOne, Delay: v.b}
+			res = append(res, &X2Config{Name: "C07/reload-" + v.n, Cfgs: []PipeCfg{pa, pb}, Depth: depth(7, 9), Cancel: true, Reload: true, Symmetry: true,
+				AdvSteps: []time.Duration{dly / 2, dly}, Drain: true, Props: props("C07")})
+		}
 		// replace without delay
 		for _, conc := range []int{1, 2} {
 			pc := PipeCfg{Conc: conc, QL: 1, Replace: true, Graph: graphOne}
-			res = append(res, &X2Config{Name: "C07/" + cfgName(pc), Cfgs: []PipeCfg{pc}, Depth: depth(6, 8), Cancel: true, Symmetry: true, AdvSteps: adv, Drain: true, Props: props("C07")})
+			res = append(res, &X2Config{Name: "C07/" + cfgName(pc), Cfgs: []PipeCfg{pc}, Depth: depth(7, 9), Cancel: true, Symmetry: true, AdvSteps: adv, Drain: true, Props: props("C07")})
 		}
 	case "C16":
 		base := PipeCfg{Conc: 1, QL: -1, Graph: graphChain, Env: map[string]string{"E": "1"}, TaskEnv: map[string]map[string]string{"a": {"T": "1"}}}
@@ -153,15 +170,15 @@ func x2Configs(prop, tier string) []*X2Config {
 		for _, n := range names {
 			v := base
 			variants[n](&v)
-			res = append(res, &X2Config{Name: "C16/" + n, Cfgs: []PipeCfg{base, v}, Depth: depth(6, 7), FailOK: n == "allow", Cancel: false, Reload: true, Symmetry: true, AdvSteps: adv, Drain: true, Props: props("C16", "C02")})
+			res = append(res, &X2Config{Name: "C16/" + n, Cfgs: []PipeCfg{base, v}, Depth: depth(7, 8), FailOK: n == "allow", Cancel: false, Reload: true, Symmetry: true, AdvSteps: adv, Drain: true, Props: props("C16", "C02")})
 		}
 		// delay removed / changed: start from a delayed definition
 		d10 := base
 		d10.Delay = dly
 		d20 := base
 		d20.Delay = 2 * dly
-		res = append(res, &X2Config{Name: "C16/delay-removed", Cfgs: []PipeCfg{d10, base}, Depth: depth(6, 7), Reload: true, Symmetry: true, AdvSteps: adv, Drain: true, Props: props("C16", "C02")})
-		res = append(res, &X2Config{Name: "C16/delay-changed", Cfgs: []PipeCfg{d10, d20}, Depth: depth(6, 7), Reload: true, Symmetry: true, AdvSteps: adv, Drain: true, Props: props("C16", "C02")})
+		res = append(res, &X2Config{Name: "C16/delay-removed", Cfgs: []PipeCfg{d10, base}, Depth: depth(7, 8), Reload: true, Symmetry: true, AdvSteps: adv, Drain: true, Props: props("C16", "C02")})
+		res = append(res, &X2Config{Name: "C16/delay-changed", Cfgs: []PipeCfg{d10, d20}, Depth: depth(7, 8), Reload: true, Symmetry: true, AdvSteps: adv, Drain: true, Props: props("C16", "C02")})
 	}
 	if prop == "C12" {
 		res = c12Configs(tier)
@@ -175,11 +192,18 @@ func x2Configs(prop, tier string) []*X2Config {
 				for _, g := range []struct {
 					n string
 					g map[string][]string
-				}{{"one", graphOne}, {"chain", graphChain}} {
+				}{{"one", graphOne}, {"chain", graphChain}, {"no-tasks", map[string][]string{}}} {
+					if g.n == "no-tasks" && (conc == 2 || v.n != "plain") {
+						continue
+					}
 					pc := v.c
 					pc.Conc = conc
 					pc.Graph = g.g
-					res = append(res, &X2Config{Name: "C10/" + cfgName(pc), Cfgs: []PipeCfg{pc}, Depth: depth(5, 7), Sbad: true, FailOK: true, Cancel: true, Symmetry: false, AdvSteps: adv, Restart: true, Props: props()})
+					dd := depth(6, 7)
+					if pc.Delay > 0 {
+						dd = depth(5, 7) // every restart of a delayed configuration waits for real (scaled) timers
+					}
+					res = append(res, &X2Config{Name: "C10/" + cfgName(pc), Cfgs: []PipeCfg{pc}, Depth: dd, Sbad: true, FailOK: true, Cancel: true, Symmetry: false, AdvSteps: adv, Restart: true, Props: props()})
 				}
 			}
 		}
